@@ -186,8 +186,9 @@ CHECKS = {
             "an explicit tolerance; skew is modelled through its square and sign.", "§5 C10"),
     "C01": ("Lean 4 proof by induction over the block list of a model of read_plan whose arithmetic is re-translated "
             "from readers.py on every run (Tie/Plan), on top of the translated reader position arithmetic and read loops "
-            "(Tie/SeekArith, Tie/ReadLoops) + differential correspondence "
-            "on real multi-file SIGPROC sets + independent concatenation oracle",
+            "(Tie/SeekArith, Tie/ReadLoops) and the translated block loop of read_plan itself (Tie/ReadPlanLoop: "
+            "plan_loop_is_model composes plan arithmetic, loop and file reader down to the bytes read) + differential "
+            "correspondence on real multi-file SIGPROC sets + independent concatenation oracle",
             "Theorem plan_covers: for all gulp/start/nsamps/skipback/N the model of the generator either yields nothing "
             "and raises ValueError, or its blocks laid end to end are exactly samples [start,start+nsamps) once each, "
             "in order, each block ≤ gulp and inside the range; rejection is forced for skipback ≥ gulp and excluded for "
